@@ -12,11 +12,11 @@
 #undef _ZN10QByteArray11reallocDataEj6QFlagsIN10QArrayData16AllocationOptionEE
 #undef _ZN10QByteArray6appendEc
 #define XHINT(d) ((d)->f3 == QB_OFF ? ((struct qb*)(d))->hint : (d)->f1)          /* evaluated inside loop conditions */
-#define XBYTES(d) ((const uint8_t*)((const char*)(d) + (d)->f3))
+#define XBYTES(d) ((d)->f3 == QB_OFF ? (const uint8_t*)BD(d) : (const uint8_t*)((const char*)(d) + (d)->f3))
 static struct qb vp_qb_zero;   /* all-zero template: blocks are initialised by one struct assignment (constants, no loop) */
 static QAD *qbv_new(uint32_t len, uint32_t hint) { struct qb *s = malloc(sizeof(struct qb)); ASSUME(s != 0); *s = vp_qb_zero;
   REF(&s->h) = 1; s->h.f1 = len; s->h.f2 = QB_CAP + 1; s->h.f3 = QB_OFF; s->hint = umin(hint, QB_CAP); VP_REG_BLK(s, 1); return &s->h; }
-static int qbv_private(QAD *d) { return REF(d) == 1 && VP_BLK_DYN(d); }
+static int qbv_private(QAD *d) { return REF(d) == 1 && d->f3 == QB_OFF; }
 static void vpl_x_copy(QAD *d, QAD *o, uint32_t n) { for (uint32_t i = 0; i < XHINT(o) && i < QB_CAP; i++) { if (i >= n) break; BD(d)[i] = XBYTES(o)[i]; } }
 /* copy of a block with a new size: model blocks are copied by ONE struct assignment (no per-byte loop, no per-byte pointer checks) */
 static QAD *qbv_copy(QAD *o, uint32_t newlen) { uint32_t h = XHINT(o);
